@@ -94,6 +94,16 @@ def sh(cmd, cwd=None, timeout=None, env=None):
     return p.returncode, p.stdout.decode("utf-8", "replace")
 
 
+COMMON_ASSUMPTIONS = [
+    "an argument is 'the same string' whether it is a str, an instance of a str subclass or a str-Enum member; a trivial user subclass of a "
+    "class, a copy, a deepcopy and an un-pickled object are 'the same object' (a deterministic half of all constructions goes these ways)",
+    "interpreter options -O / -OO / PYTHONOPTIMIZE, the terminal (width, TERM, colour conventions, tty or pipe), locale variables, hash "
+    "seeds and the decimal context (precision >= 28) are ambient conditions that must not change any result",
+    "concurrency, cold start, recursion depth, volume and cross-process probes SEARCH for failing schedules / histories on the real "
+    "code; they are not proofs and a pass says nothing beyond what was run",
+]
+
+
 def generic_replay(mod, data):
     """replays of the process-level probes are the same for every property (vh/conc.py); everything else is the property's own"""
     r = data.get("replay") if isinstance(data, dict) else None
@@ -421,7 +431,7 @@ def run_check(pid, tier, seed, level, level_text=None):
             "leanchecker": lc,
             **ctx.extra,
         },
-        "assumptions": getattr(mod, "ASSUMPTIONS", []),
+        "assumptions": list(getattr(mod, "ASSUMPTIONS", [])) + COMMON_ASSUMPTIONS,
         "wall_s": round(time.time() - t0, 2),
         "violations": len(new_violations) + (1 if exit_code and not new_violations else 0),
         "known_findings": [k["signature"] for k in kf],
